@@ -20,7 +20,7 @@ KNOWN = os.path.join(env.VERIF, "known_findings.txt")
 
 TIERS = {
     # runs per check, shrink budget per violation (s), wall cap for the batch (s)
-    "quick": {"C15": 1280, "C16": 1280, "C18": 960, "shrink_s": 60, "cap_s": 420},
+    "quick": {"C15": 2400, "C16": 1600, "C18": 960, "shrink_s": 60, "cap_s": 420},
     "thorough": {"C15": 48000, "C16": 32000, "C18": 40000, "shrink_s": 240, "cap_s": 3000},
 }
 
